@@ -631,7 +631,7 @@ func (nfs *Nfs) NFSPROC3_RENAME(args nfstypes.RENAME3args) nfstypes.RENAME3res {
 		toh := fh.MakeFh(args.To.Dir)
 		fromh := fh.MakeFh(args.From.Dir)
 
-		if dir.IllegalName(args.From.Name) {
+		if dir.IllegalName(args.From.Name) || dir.IllegalName(args.To.Name) {
 			errRet(op, &reply.Status, nfstypes.NFS3ERR_INVAL)
 			done = true
 			break
@@ -682,6 +682,14 @@ func (nfs *Nfs) NFSPROC3_RENAME(args nfstypes.RENAME3args) nfstypes.RENAME3res {
 		if dipto == dipfrom && toinum == frominum {
 			reply.Status = nfstypes.NFS3_OK
 			op.Commit()
+			done = true
+			break
+		}
+
+		// the target may not be one of the two directories themselves
+		// (each inode is locked once)
+		if toinum == dipfrom.Inum || toinum == dipto.Inum || frominum == dipto.Inum {
+			errRet(op, &reply.Status, nfstypes.NFS3ERR_INVAL)
 			done = true
 			break
 		}
